@@ -658,7 +658,7 @@ class C06(Spec):
                   "the thread's ready queue): per-operation abstraction theorems (add, <<, move, pop, clear/destructor, co_await in both "
                   "modes), conservation of the multiset of handles over every operation list on any number of suspend points, exactly-once "
                   "at end of life, heap balance / no invalid free / no out-of-bounds write, no allocation up to 3 handles, typed value "
-                  "preserved; the model is tied to the headers by running both on generated sequences and diffing every line; property "
+                  "preserved by every operation including every way of reading it (value type with an observable moved-from state); the model is tied to the headers by running both on generated sequences and diffing every line; property "
                   "oracles run on the implementation trace under ASan/UBSan/LSan")
     level_note = ("trusted: Lean kernel (axioms propext/Classical.choice/Quot.sound at most), the hand-written model, the differential harness "
                   "(sampling), the assumption that resumed coroutines are trivial (they do not touch the suspend points or the queue while "
